@@ -63,7 +63,14 @@ def run(prog, rep, tier, repo):
     # counts idiom sites that are simply elsewhere
     _rets = f.return_values()
     _out = _rets[0] if _rets else None
-    UNREAD = not any(c_.path and short(c_.path) == 'push' and c_.args and c_.args[0] == _out for c_ in f.calls())
+    _pushes0 = [c_ for c_ in f.calls() if c_.path and short(c_.path) == 'push' and c_.args and c_.args[0] == _out]
+    _pvals0 = []
+    for c_ in _pushes0:
+        v_ = c_.args[1]
+        defs_ = [st.value for st in f.stores() if st.target == v_] if tag(v_) == 'local' else []
+        _pvals0 += [prog.inline(d_) for d_ in defs_] or [prog.inline(v_)]
+    UNREAD = not _pushes0 or any(tag(z) == 'call' and z[1] in pdb.bodies and pdb.bodies[z[1]].kind != 'closure' and short(z[1]) not in ('index', 'index_mut', 'len')
+                                 for v_ in _pvals0 for z in subterms(v_))
 
     def floor_(rule, n, what):
         if UNREAD:
@@ -150,6 +157,12 @@ def run(prog, rep, tier, repo):
             rep.viol('dispatch-reachable', key, 'the branch `%s` is %s can never be taken: %s is at most %s after the bracketing scan. '
                      'Targets beyond the last abscissa are therefore never recognised as out of range (the fill / panic / right-extrapolation '
                      'handlers behind this test are dead)' % (show(c), v, show(loc), pshow(bounds[loc][1], show)), site_of(f.body.blocks[s].term.span))
+    if not bounds and not UNREAD:
+        # no bracket counter with readable bounds (the search lives in a helper returning a tuple, `take_while(..).count()`, ..): the branch
+        # outcomes on the index are not read
+        for i_ in range(2):
+            rep.undecided('dispatch-reachable', 'dispatch-reachable:%s:no-counter-%d' % (short(K), i_), 'no bracketing counter with readable bounds in %s' % short(K),
+                          site_of(f.body), proof=False)
     floor_('dispatch-reachable', 2, 'branch outcomes on the bracketing index')
     dead_blocks = set()
     for s, d, c, v in dead_edges:
@@ -215,7 +228,10 @@ def run(prog, rep, tier, repo):
     sites.append(('in-range', inrange[0] if inrange else None))
     for name, c in sites:
         key = 'handler:%s:%s' % (short(K), name)
-        if c is None and not raw_pushes:
+        if c is None and any(tag(z) == 'call' and z[1] in pdb.bodies and pdb.bodies[z[1]].kind != 'closure' and short(z[1]) not in ('index', 'index_mut', 'len')
+                             for c_ in pushes for z in subterms(c_.args[1])):
+            rep.undecided('handler', key, 'a pushed value is computed by an in-crate helper: the %s site is not read' % name, site_of(f.body), proof=False)
+        elif c is None and not raw_pushes:
             # the result is not assembled by pushes in this body (`extend(map(..))` over helpers, say): the sites are not read
             rep.undecided('handler', key, 'results are not pushed in the body of %s itself: %s site not read' % (short(K), name), site_of(f.body), proof=False)
         elif c is None:
